@@ -56,6 +56,9 @@ pub(crate) mod thread;
 mod vv;
 pub(crate) use self::vv::VersionVec;
 
+#[cfg(feature = "verif")]
+pub(crate) mod verif;
+
 use tracing::trace;
 
 /// Maximum number of threads that can be included in a model.
